@@ -105,13 +105,14 @@ pub fn run_asmdump(line: &str) -> String {
     }
 }
 
-pub fn exec_program_report(program: &Program, max_cycles: u32, stack: Vec<u64>, adv: Vec<u64>) -> String {
+pub fn exec_program_report(program: &Program, limits: (u32, u32), stack: Vec<u64>, adv: Vec<u64>) -> String {
+    let (max_cycles, expected) = limits;
     let mut stack = stack;
     stack.reverse();
     let stack_inputs = StackInputs::try_from_values(stack).unwrap();
     let advice_inputs = AdviceInputs::default().with_stack_values(adv).unwrap();
     let host = DefaultHost::new(MemAdviceProvider::from(advice_inputs));
-    let opts = ExecutionOptions::new(Some(max_cycles), 64, false).unwrap();
+    let opts = ExecutionOptions::new(Some(max_cycles), expected, false).unwrap();
     let mut process = Process::new(program.kernel().clone(), stack_inputs, host, opts);
     let r = process.execute(program);
     let clk = process.system.clk();
@@ -148,7 +149,7 @@ pub fn exec_program_report(program: &Program, max_cycles: u32, stack: Vec<u64>, 
 /// case: <max> | <stack> | <adv> | <opts> | <kernel source> | <program source>
 pub fn run_masm(line: &str) -> String {
     let parts: Vec<&str> = line.split('|').collect();
-    let max_cycles: u32 = parts[0].trim().parse().unwrap();
+    let max_cycles = crate::exec::parse_limits(parts[0]);
     let stack: Vec<u64> = parts[1].split_whitespace().map(|t| t.parse().unwrap()).collect();
     let adv: Vec<u64> = parts[2].split_whitespace().map(|t| t.parse().unwrap()).collect();
     let res = catch_unwind(AssertUnwindSafe(|| {
